@@ -37,7 +37,7 @@ RULE = ("random streams over the vocabulary of sampled configurations (<=60 toke
         "oracle tokenises it, and a token outside the vocabulary is a violation, not a skipped case), with and without value imputation; "
         "configurations include other resolutions (ppqn 6/12/48/96), custom / unsorted step lists, a step above ppqn, three-digit steps, "
         "repeated list entries and custom note values; non-trivial = stream has a note token after a rest/bar token")
-ASSUMPTIONS = ["models: SCoda.getInfo and SCoda.detokenise, tied by correspondence on the same streams"]
+ASSUMPTIONS = ["models: SCoda.getInfo and SCoda.detokenise, tied by translation (TokTie.getInfo_eq / detokenise_eq on rendered tokens, ppqn >= 0) and by correspondence on the same streams"]
 COF = {0: 0, 7: 1, 2: 2, 9: 3, 4: 4, 11: 5, 6: 6, 1: -5, 8: -4, 3: -3, 10: -2, 5: -1}
 
 
